@@ -110,7 +110,12 @@ func (r *Run) Exec() (*Result, error) {
 	if timeout == 0 {
 		timeout = 10 * time.Minute
 	}
-	args := []string{"-XX:+UseParallelGC", "-Xss256m"}
+	// bounded heaps: several TLC processes run side by side (12 judge shards, other checks)
+	heap := "-Xmx3g"
+	if workers > 1 {
+		heap = "-Xmx10g"
+	}
+	args := []string{"-XX:+UseParallelGC", "-Xss256m", heap}
 	args = append(args, r.JavaProps...)
 	args = append(args, "-cp", "/opt/veriftools/tla/tla2tools.jar:/opt/veriftools/tla/CommunityModules-deps.jar",
 		"tlc2.TLC", "-metadir", filepath.Join(r.Scratch, "md"), "-workers", strconv.Itoa(workers),
